@@ -5,6 +5,8 @@ type nat =
 | O
 | S of nat
 
+val snd : ('a1 * 'a2) -> 'a2
+
 val length : 'a1 list -> nat
 
 val app : 'a1 list -> 'a1 list -> 'a1 list
@@ -84,6 +86,8 @@ module Pos :
   val iter_op : ('a1 -> 'a1 -> 'a1) -> positive -> 'a1 -> 'a1
 
   val to_nat : positive -> nat
+
+  val of_succ_nat : nat -> positive
  end
 
 module Z :
@@ -114,6 +118,8 @@ module Z :
 
   val to_nat : z -> nat
 
+  val of_nat : nat -> z
+
   val pos_div_eucl : positive -> z -> z * z
 
   val div_eucl : z -> z -> z * z
@@ -126,6 +132,8 @@ module Z :
 type kind =
 | Rd
 | Wr
+| Ac
+| Co
 
 type pc =
 | Idle
@@ -189,6 +197,16 @@ type res =
 | RPipe
 | RTimedOut
 | RCanceled
+| RAcc of nat
+| RConn
+| RErr of nat
+
+type cstate =
+| CNone
+| CProg
+| CEst
+| CRef of nat
+| CConn
 
 type actor = { apc : pc; afd : nat; akind : kind; acn : bool;
                ato : nat option; adat : nat list; an : nat; apara : bool;
@@ -202,12 +220,15 @@ type tent = { tstate : tst; tdl : nat; tev : nat option; tmin : nat }
 type pipe = { buf : nat list; wshut : bool; sent : nat list; rcvd : nat list;
               eof : bool }
 
+type ksock = { kq : nat list; kst : cstate; ktgt : nat; kdeliv : bool;
+               kest : nat list; kacc : nat list }
+
 type st = { now : nat; p : (nat -> pipe); pend : (nat -> bool);
             flag : (nat -> bool); co : (nat -> nat option);
             tmr : (nat -> nat option); busy : (nat -> nat option);
             closed : (nat -> bool); a : (nat -> actor); sb : (nat -> sub0);
             nexts : nat; t : (nat -> tent); nextt : nat;
-            sel : (nat -> selst); cn : (nat -> cnst) }
+            sel : (nat -> selst); cn : (nat -> cnst); kn : (nat -> ksock) }
 
 val upd : (nat -> 'a1) -> nat -> 'a1 -> nat -> 'a1
 
@@ -230,6 +251,9 @@ type action =
 | Shutdown of nat
 | Spurious of nat
 | Close of nat
+| Establish of nat
+| Refuse of nat * nat
+| Deliver of nat
 
 val mkA :
   pc -> nat -> kind -> bool -> nat option -> nat list -> nat -> bool -> bool
@@ -261,13 +285,23 @@ val s_pc : sub0 -> spc -> sub0
 
 val t_null : tent -> bool -> tent
 
+val k_st : ksock -> cstate -> ksock
+
+val k_start : ksock -> cstate -> nat -> bool -> ksock
+
+val k_deliv : ksock -> ksock
+
+val k_push : ksock -> nat -> ksock
+
+val k_pop : ksock -> nat -> nat list -> ksock
+
 val t_pop : tent -> tent
 
 val mk :
   nat -> (nat -> pipe) -> (nat -> bool) -> (nat -> bool) -> (nat -> nat
   option) -> (nat -> nat option) -> (nat -> nat option) -> (nat -> bool) ->
   (nat -> actor) -> (nat -> sub0) -> nat -> (nat -> tent) -> nat -> (nat ->
-  selst) -> (nat -> cnst) -> st
+  selst) -> (nat -> cnst) -> (nat -> ksock) -> st
 
 val wnow : st -> nat -> st
 
@@ -299,16 +333,24 @@ val wSel : st -> (nat -> selst) -> st
 
 val wCn : st -> (nat -> cnst) -> st
 
+val wKn : st -> (nat -> ksock) -> st
+
 val idle_actor : actor
 
 val init : st
 
 val pipe_of : (nat -> nat) -> kind -> nat -> nat
 
+val enqueue : (nat -> ksock) -> nat -> nat -> nat -> ksock
+
+val q_edge : (nat -> ksock) -> nat -> nat option
+
 type sysres =
 | SysDone of res * pipe * nat option
 | SysAgain
 | SysBad
+| SysK of res * (nat -> ksock) * nat option
+| SysAgainK of (nat -> ksock)
 
 val syscall : nat -> (nat -> nat) -> st -> actor -> nat -> sysres
 
@@ -343,6 +385,9 @@ type tmode =
 | MRun of nat
 | MKer of nat
 | MKerX
+| MProxy of nat
+| MProxyP
+| MRunP of nat
 
 type aux = { tm : (nat -> tmode); cmap : (z * nat) list; nco : nat;
              oflag : (z * nat) list; oco : (z * nat) list; preflag : 
@@ -350,7 +395,8 @@ type aux = { tm : (nat -> tmode); cmap : (z * nat) list; nco : nat;
              selcur : (nat -> nat option); selpre : (nat -> z option);
              fds : nat list; dgr : (nat -> bool); amap : (nat -> nat option);
              cpend : (nat -> nat option); ctgt : (nat -> nat option);
-             precan : nat list; cnull : (nat -> nat option); seen : nat list }
+             precan : nat list; cnull : (nat -> nat option); seen : nat list;
+             dang : nat list; tsent : nat list; prox : nat list }
 
 type ast = { ms : st; ax : aux; acap : nat; fresh : bool }
 
@@ -375,6 +421,10 @@ val set_sel :
 val set_fds : aux -> nat list -> (nat -> bool) -> nat list -> aux
 
 val set_cnull : aux -> (nat -> nat option) -> aux
+
+val set_dang : aux -> nat list -> aux
+
+val set_thr : aux -> nat list -> nat list -> aux
 
 val set_can :
   aux -> (nat -> nat option) -> (nat -> nat option) -> (nat -> nat option) ->
@@ -405,6 +455,8 @@ val res_ok : res option -> nat list -> bool
 val bindo :
   (nat -> bool) -> (z * nat) list -> z -> nat -> (z * nat) list option
 
+val unbound : (nat -> bool) -> (z * nat) list -> z -> bool
+
 val bindthr : (nat -> nat option) -> nat -> nat -> (nat -> nat option) option
 
 type plan = ((action list * (st -> bool)) * aux) option
@@ -426,6 +478,18 @@ val flush : st -> aux -> nat -> action list
 val flush_for : st -> nat -> action list
 
 val pick_timer : st -> nat -> nat -> nat option -> nat option
+
+val undang : st -> aux -> nat -> action list
+
+val undang_x : st -> aux -> nat -> aux
+
+val deliver : st -> nat -> action list
+
+val eINPROGRESS_ : z
+
+val eALREADY_ : z
+
+val eISCONN_ : z
 
 val eAGAIN_ : z
 
